@@ -112,11 +112,12 @@ func valueToTree(v interface{}) J {
 	case bool:
 		return J{"j": "bool", "b": x}
 	case json.Number:
+		neg := strings.HasPrefix(x.String(), "-")
 		if i, err := x.Int64(); err == nil && i > -2000000000 && i < 2000000000 && !strings.ContainsAny(x.String(), ".eE") {
-			return J{"j": "num", "n": i}
+			return J{"j": "num", "n": i, "neg": neg}
 		}
 		f, _ := x.Float64()
-		return J{"j": "num", "f": fmtFloat(f)}
+		return J{"j": "num", "f": fmtFloat(f), "neg": neg}
 	case float64:
 		return J{"j": "num", "f": fmtFloat(x)}
 	case []interface{}:
